@@ -176,6 +176,33 @@ Proof.
   vm_compute; discriminate.
 Qed.
 
+(** ** Known finding (known_findings.json, signature [paragraph-whitespace-collapsed])
+
+    The unbounded statement is FALSE of the model (and of the code) on strings
+    that contain a whitespace run with two or more newlines other than the bare
+    run "\n\n": the run is one paragraph-break token from its first to its last
+    newline and latex2text renders that token as exactly two newlines.  Every
+    character of the witnesses is in the alphabet of the property. *)
+Theorem C08_paragraph_whitespace_refuted :
+  exists s, Forall (fun c => In c c08_alphabet) s /\
+    forall p sl, In p schemes -> In sl policies -> exists t, roundtrip p sl s = Some t /\ t <> s.
+Proof.
+  exists [97; 10; 10; 10; 98]%N. split.
+  - repeat constructor; vm_compute; tauto.
+  - intros p sl Hp Hs. exists [97; 10; 10; 98]%N. split; [|discriminate].
+    cbn [In schemes policies] in Hp, Hs.
+    destruct Hp as [<-|[<-|[<-|[<-|[]]]]]; destruct Hs as [<-|[<-|[]]]; vm_compute; reflexivity.
+Qed.
+
+(** … while the bare paragraph break, also with spaces around it, does round-trip *)
+Example C08_paragraph_break_roundtrips :
+  forall p sl, In p schemes -> In sl policies ->
+    roundtrip p sl [97; 32; 10; 10; 32; 98]%N = Some [97; 32; 10; 10; 32; 98]%N.
+Proof.
+  intros p sl Hp Hs. cbn [In schemes policies] in Hp, Hs.
+  destruct Hp as [<-|[<-|[<-|[<-|[]]]]]; destruct Hs as [<-|[<-|[]]]; vm_compute; reflexivity.
+Qed.
+
 Print Assumptions C08_alphabet_is_table.
 Print Assumptions C08_alphabet_spec.
 Print Assumptions C08_single_characters.
@@ -185,3 +212,5 @@ Print Assumptions C08_encoding_is_chunkwise.
 Print Assumptions C08_encoding_concat.
 Print Assumptions C08_roundtrip_is_decode_of_chunks.
 Print Assumptions C08_roundtrip_partial.
+Print Assumptions C08_paragraph_whitespace_refuted.
+Print Assumptions C08_paragraph_break_roundtrips.
